@@ -35,16 +35,26 @@ def close(x, f):
 def run_case(case, rec):
     import dynetx as dn
     d = Driver(case)
-    for op in case['ops']:
+    half = len(case['ops']) // 2
+    for i, op in enumerate(case['ops']):
         r = d.step(op)
         if r['actual'] != r['expected']:
             rec.note('outcome_mismatch(left to C01)')
             return False
+        if i + 1 == half and len(case['ops']) % 2 == 0 and d.M.ids():
+            # the same object is measured in the middle of its history as well: a statistic must not
+            # remember what it answered for an earlier state
+            measure_all(rec, d, case['cls'] + ' (mid-history)')
+            rec.classify('measured mid-history too')
+    if not d.M.ids():
+        return False
+    return measure_all(rec, d, case['cls'])
+
+
+def measure_all(rec, d, ctx):
+    import dynetx as dn
     G, M = d.G, d.M
     ids = M.ids()
-    if not ids:
-        return False
-    ctx = case['cls']
     V = list(M.nodes)
     T = len(ids)
     Tn = {n: {t for t in ids if n in M.nodes_at(t)} for n in V}
@@ -122,7 +132,7 @@ def run_case(case, rec):
                 check_dist('inter_in_event.node', G.inter_in_event_time_distribution, (n,), [e for e in S if e[1] == n])
     for c in d.classes:
         rec.classify(c)
-    rec.classify(case['cls'])
+    rec.classify(type(G).__name__)
     long_multi = any(len(M.runs(k)) >= 2 and any(r[1] - r[0] >= 2 for r in M.runs(k)) for k in M.orient)
     absent = any(len(Tn[n]) < T for n in V)
     return long_multi and absent
